@@ -97,7 +97,7 @@ class C11(Prop):
     budget_s = {'quick': 200, 'thorough': 2400}
 
     def cases(self, tier, seed, want):
-        n = 14000 if tier == 'quick' else 350000
+        n = 14000 if tier == 'quick' else 200000
         for j in range(n):
             k = j + 1
             if not want(k):
